@@ -131,7 +131,7 @@ def replay(ctx, cfg, hist, key):
                     raise core.MachineryError('slot filled in the implementation but not in the spec')
                 continue
             E = hm.dense_of_sparse(exp)
-            exact = op in ('make', 'add', 'dagger', 'copy', 'sort_legcharges', 'group_sites') or op.startswith('is_')
+            exact = op in ('make', 'make_pair', 'add', 'dagger', 'copy', 'sort_legcharges', 'group_sites') or op.startswith('is_')
             good = got is not None and got.shape == E.shape and (np.array_equal(got, E) if exact else
                                                                 hm.max_abs_diff(got, E) <= TOL * max(1.0, np.max(np.abs(E))))
             if not good:
@@ -153,6 +153,12 @@ def step(ctx, im, marks, l, hist, n, cfg):
         if l['markers'] == 'ends':
             H = remake_with_end_markers(H)
         im.slots[l['s']] = H
+        return True
+    if op == 'make_pair':
+        for s_, ds in (('A', l['declsA']), ('B', l['declsB'])):
+            M = hm.build_model(cfg, ds)
+            im.sites = M.lat.mps_sites()
+            im.slots[s_] = M.H_MPO
         return True
     if op == 'add':
         im.slots[l['s']] = im.slots['A'] + im.slots['B']
@@ -353,13 +359,15 @@ def check(ctx):
                'compression methods are checked as relations: |O psi - result|^2 <= reported eps + 1e-8 (no truncation requested)')
     only = ctx.only
     if not only or 'mc' in only:
-        res = run_mc(ctx, 'MPOAlgebra-depth2', 'ConfigsTwo' if quick else 'ConfigsFull', 2, 0, 4 if quick else 1)
-        res3 = run_mc(ctx, 'MPOAlgebra-depth3', 'ConfigsOne' if quick else 'ConfigsQuick', 3, 1, 6 if quick else 2)
+        res = run_mc(ctx, 'MPOAlgebra-depth2', 'ConfigsQuick' if quick else 'ConfigsFull', 2, 0, 4 if quick else 1)
+        runs = [res]
+        if not quick:
+            runs.append(run_mc(ctx, 'MPOAlgebra-depth3', 'ConfigsQuick', 3, 1, 2))
         cov = {}
-        for r in (res, res3):
+        for r in runs:
             for a, (dd, t) in r.coverage.items():
                 cov[a] = cov.get(a, 0) + dd
-        missing = [a for a in ('Setup', 'Make', 'Add', 'Dagger', 'PlusIdentity', 'Represent', 'QHermitian', 'QEqual', 'QOverlap',
+        missing = [a for a in ('Setup', 'Make', 'MakePair', 'Add', 'Dagger', 'PlusIdentity', 'Represent', 'QHermitian', 'QEqual', 'QOverlap',
                                'QExpect', 'QApply', 'QUI', 'QUII') if cov.get(a, 0) == 0]
         if missing:
             raise core.MachineryError('actions never taken in the MC runs (vacuous): %r' % missing)
